@@ -347,6 +347,18 @@ def run_unit(unit, rng, ctx):
     if not np.array_equal(tr.states, sys_.states_true):
         ctx.count('realised_states_differ_from_intended')
     check_transitions(tr, ctx, f'rand {sys_.kind} T={T}')
+    if k == 'rand' and unit['i'] % 4 == 2:
+        # a second live object with the SAME sites and an identical event table but another history: the same run
+        # observed for a few more quiet frames (no new events).  Its views are those of its own state array
+        from gemdat.transitions import Transitions
+
+        tail = int(rng.integers(1, 6))
+        st_b = np.concatenate([np.asarray(tr.states), np.repeat(np.asarray(tr.states)[-1:], tail, axis=0)])
+        in_b = np.concatenate([np.asarray(tr.inner_states), np.repeat(np.asarray(tr.inner_states)[-1:], tail, axis=0)])
+        tr_b = Transitions(trajectory=tr.trajectory, diff_trajectory=tr.diff_trajectory, sites=tr.sites, events=tr.events.copy(), states=st_b, inner_states=in_b)
+        check_transitions(tr_b, ctx, f'rand {sys_.kind} T={T} [second live object: same sites and event table, {tail} more quiet frames]')
+        check_transitions(tr, ctx, f'rand {sys_.kind} T={T} [first object asked again while the second is alive]')
+        ctx.count('live_twins_with_identical_event_tables')
     if k == 'rand' and unit['i'] % 4 == 0:
         # a copy of the (already queried) object is another object: pointed at another history, its event
         # table and previous / next views are those of that history
